@@ -270,6 +270,10 @@ def run_check(prop, tier, seed, replay=None):
     def triage(r):
         """a violating result: shrink it (keeping the same kind of failure), classify as known finding or new violation"""
         key0 = prop.finding_key(r['case'], r['violation'])
+        for k in known:
+            if key0 is not None and k['key'] == key0:
+                known_hits.setdefault(k['id'], (k, r['case'], r['violation']))   # a listed finding: no need to shrink
+                return
         def same_failure(c):
             rr = evaluate_cases(prop, [c])[0]
             return bool(rr['violation']) and prop.finding_key(c, rr['violation']) == key0
